@@ -285,6 +285,15 @@ static int URI_FUNC(AddBaseUriImpl)(URI_TYPE(Uri) * absDest,
 					absDest->scheme = absBase->scheme;
 	/* [31/32]	endif; */
 				}
+				/* Without authority a path starting with "//" (e.g. base "s:a" and
+				 * reference "/.//c") would be read back as an authority */
+				if (!URI_FUNC(IsHostSet)(absDest)
+						&& (absDest->pathHead != NULL)
+						&& (absDest->pathHead->next != NULL)) {
+					if (!URI_FUNC(FixAmbiguity)(absDest, memory)) {
+						return URI_ERROR_MALLOC;
+					}
+				}
 	/* [32/32]	T.fragment = R.fragment; */
 				absDest->fragment = relSource->fragment;
 
